@@ -78,6 +78,13 @@ def configs(tier):
                 cfg.update({"elements": "E,H,HE,C,O", "pseudo-elements": "CRP,PHOTON", "element-replacement": rep, "network-files": "he.ucl",
                             "file-formats": "uclchem", "allowed-species": allowed, "extra-species": extra})
                 add(cfg, "family:replacement-effective")
+    # a family in which binding energies and yields reach the generated rates (ice chemistry under a dust model)
+    for model in ("rr07", "hh93"):
+        for binding in ("", "#CO=1300.0", "#CO=1300.0,#H2O=5000", "#H2O=4800.5"):
+            for yld in ("", "#CO=0.25", "#CO=0.25,#H2O=0.004", "#H2O=2.5e-3"):
+                cfg = dict(BASE)
+                cfg.update({"network-files": "ice.ucl", "file-formats": "uclchem", "grain-model": model, "binding": binding, "yield": yld, "extra-species": "H, H2"})
+                add(cfg, "family:ice-tables")
     pool = INTERACTING if tier == "quick" else [o for o in ALPHABET if o not in ("heating",)]
     pairs = list(itertools.combinations(pool, 2))
     for a, b in pairs:
@@ -229,6 +236,11 @@ def write_inputs(proj: Path):
         + "\n"
     )
     (proj / "he.ucl").write_text("HE,CRP,NAN,HE+,E-,NAN,NAN,0.5,0.0,0.0,10,41000\nHE+,E-,NAN,HE,NAN,NAN,NAN,1e-11,-0.5,0.0,10,41000\nH2,PHOTON,NAN,H,H,NAN,NAN,1e-10,0.0,2.5,10,41000\n")
+    (proj / "ice.ucl").write_text(
+        "CO,FREEZE,NAN,#CO,NAN,NAN,NAN,1.0,0.0,0.0,10,41000\nH2O,FREEZE,NAN,#H2O,NAN,NAN,NAN,0.5,0.0,0.0,10,41000\n"
+        "#CO,DEUVCR,NAN,CO,NAN,NAN,NAN,1.0,0.0,0.0,10,41000\n#H2O,DEUVCR,NAN,H2O,NAN,NAN,NAN,1.0,0.0,0.0,10,41000\n"
+        "#CO,DESCR,NAN,CO,NAN,NAN,NAN,1.0,0.0,0.0,10,41000\n#H2O,DESCR,NAN,H2O,NAN,NAN,NAN,1.0,0.0,0.0,10,41000\n"
+    )
     (proj / "net2.umist").write_text(F.enc_umist(F.AReaction(["C", "CH"], ["C2", "H"], 6.59e-11, 0.0, 0.0, 10.0, 300.0, 5173, "NN")) + "\n")
 
 
